@@ -173,7 +173,7 @@ m('C18', PM, 'instanceDBRegex, err := regexp.Compile(`^[-_.a-zA-Z0-9]*$`)', 'ins
 m('C18', PM, '\tif matched := instanceDBRegex.MatchString(*database_name); !matched {', '\tif matched := instanceDBRegex.MatchString(*instance_name); !matched {', 'database flag not validated')
 m('C18', PR, '\tcase "noop":', '\tcase "noop", "":', 'empty probe type accepted')
 m('C18', PR, '\t\tif _, err := h.Write(payload); err != nil {', '\t\tif _, err := h.Write(payload[:len(payload)/2]); err != nil {', 'hash of half the payload')
-m('C18', PM, '!(*qps > 0 && *qps <= 1000) || !(interval >= 1 && interval < math.MaxInt64)', '*qps <= 0 || *qps > 1000', 'NaN / tiny qps accepted (F18)')
+m('C18', PM, '!(*qps > 0 && *qps <= 1000) || !(interval >= 1 && interval < math.MaxInt64)', '*qps <= 0 || *qps > 1000 || interval > math.MaxInt64', 'NaN / tiny qps accepted (F18)')
 m('C18', PI, '\tif len(headers[serverTimingKey]) > 0 {\n\t\tserverTiming = headers[serverTimingKey]\n\t} else if len(trailers[serverTimingKey]) > 0 {\n\t\tserverTiming = trailers[serverTimingKey]', '\tif len(trailers[serverTimingKey]) > 0 {\n\t\tserverTiming = trailers[serverTimingKey]\n\t} else if len(headers[serverTimingKey]) > 0 {\n\t\tserverTiming = headers[serverTimingKey]', 'trailer preferred over header')
 
 # ---------------- C19
